@@ -725,6 +725,11 @@ def check_noisy_runs(ctx, cirq, n):
     a, b, c = cirq.LineQubit.range(3)
     corpus.append((cirq.Circuit(cirq.Moment(cirq.measure(a, b, key='a')), cirq.Moment(cirq.measure(c, key='b'))), cirq.X, True))
     corpus.append((cirq.Circuit(cirq.Moment(cirq.H(a), cirq.X(b)), cirq.Moment(cirq.measure(b, a, key='a')), cirq.Moment(cirq.X(c)), cirq.Moment(cirq.measure(c, key='b'))), cirq.bit_flip(0.25), False))
+    # the same qubit measured again later: the noise between the two measurements counts for the second
+    corpus.append((cirq.Circuit(cirq.Moment(cirq.measure(a, key='a')), cirq.Moment(cirq.measure(a, key='b'))), cirq.X, False))
+    corpus.append((cirq.Circuit(cirq.Moment(cirq.measure(a, key='a')), cirq.Moment(cirq.measure(a, b, key='b'))), cirq.bit_flip(0.25), False))
+    corpus.append((cirq.Circuit(cirq.Moment(cirq.measure(a, b, key='a')), cirq.Moment(cirq.measure(b, c, key='b')), cirq.Moment(cirq.measure(a, key='c'))), cirq.X**0.5, False))
+    corpus.append((cirq.Circuit(cirq.Moment(cirq.measure(a, key='a'), cirq.measure(b, key='b')), cirq.Moment(cirq.measure(b, key='a'))), cirq.bit_flip(0.25), True))
     for it in range(n + len(corpus)):
         if it < len(corpus):
             circuit, ch, prepend = corpus[it]
